@@ -135,6 +135,38 @@ CHECKS = {
              "orders, on a fresh recording store: one binding with two signatures, or two bindings with one, is a violation.",
         design_ref="DESIGN.md 5 C13", category="model_checking",
         note="Function-shaped: TLC supplies the universe and the expected partition. bool = int is a documented identification."),
+    "C06": dict(
+        engine="tlc-design+explorer+tlc-trace",
+        technique="PlusCal/TLA+ spec LocalStoreFS (one label per file-system call, torn writes as states, kill -9 as a Crash "
+                  "action) model-checked by TLC per scenario and write protocol; exhaustive crash-point enumeration of the "
+                  "real LocalFileStore under a file-system shim with recovery processes; recorded call traces validated by "
+                  "TLC against the POSIX model FsTrace",
+        text="TLC checks ReturnedComplete / NoFailure / CommittedLoadable on LocalStoreFSMC with a crash at every label for the "
+             "'atomic' protocol (temp file + rename, metadata last, link replaced by rename) and must reject the 'inplace' one; "
+             "which protocol the working tree follows is measured from its recorded calls. On the real code, for every scenario "
+             "(TLC-generated DdsEval histories: first keep, re-keep after a value-changing edit, nested keeps, constant/run-time "
+             "arguments) the victim evaluation is killed with SIGKILL before each of its mutating file-system calls (each "
+             "write is two calls); a recovery process then loads every previously committed path, re-evaluates, loads and "
+             "re-evaluates again: any None / wrong / partial value or exception is a violation. The call traces (complete and "
+             "killed) are replayed by TLC in FsTrace, which must predict every outcome and reproduce the directory tree.",
+        design_ref="DESIGN.md 5 C06, 2.4, 4.5", category="model_checking",
+        note="kill -9 semantics only (no power loss, no fsync modelling); crash points are Python-level calls plus the two "
+             "halves of each write; str and pickle codecs (pyarrow writes below Python are not interposed). Trusted: TLC, the "
+             "shim (cross-validated with FsTrace on every run)."),
+    "C07": dict(
+        engine="tlc-design+explorer+tlc-trace",
+        technique="PlusCal/TLA+ spec LocalStoreFS model-checked by TLC over all interleavings of 2-3 client processes per race "
+                  "scenario; systematic schedule enumeration (preemption-bounded DFS at file-system-call granularity) of real "
+                  "processes under the shim's controlled scheduler; merged call traces validated by TLC against FsTrace",
+        text="TLC explores every interleaving (no preemption bound) of the race scenarios (same keep on a cold store incl. store "
+             "creation, re-keep vs load, re-keep vs re-keep, three processes) for the 'atomic' protocol and rejects 'inplace'. "
+             "On the real code two shimmed processes run the same scenarios (plus two data directories over one internal "
+             "directory) with exactly one file-system call in flight; schedules are enumerated depth-first with up to 1 (quick) / "
+             "2 (thorough) preemptions; every keep / load that returns must return the complete correct value (loads: old or "
+             "new), no process may fail, and a fresh process afterwards must keep and load correctly.",
+        design_ref="DESIGN.md 5 C07, 2.4", category="model_checking",
+        note="Exhaustive only up to the preemption bound and the per-scenario schedule budget on the real code (the model is "
+             "unbounded); same-host POSIX semantics; no NFS."),
     "C08": dict(
         engine="tlc-design+tlc-generate+tlc-trace",
         technique="TLA+ spec StoreModel (dictionary store with path identity = segment sequence) model-checked by TLC over its "
